@@ -136,18 +136,23 @@ let predict (c : string) (obs : string) : string * string * bool =
   | ["ahttp"; _ninst; order; users; defs; scens] ->
       let order = parse_order order and users = parse_users users and scens = parse_scens scens in
       let defs = List.map (fun d -> match String.split_on_char ';' d with
-        | [name; meth; uri; hdrs; body; pp] ->
+        | [name; meth; uri; hdrs; body; pp; asrt] ->
             { h_name = bytes_of_field name; h_method = bytes_of_field meth; h_uri = bytes_of_field uri;
-              h_headers = parse_meta hdrs; h_body = (if body = "-" then None else Some (bytes_of_field body)); h_pp = (pp = "1") }
+              h_headers = parse_meta hdrs; h_body = (if body = "-" then None else Some (bytes_of_field body)); h_pp = (pp = "1");
+              h_assert = (asrt = "1") }
         | _ -> failwith "hdef") (split '|' defs) in
       let (shots_s, post_s) = split_post obs in
       let shots = split '#' shots_s in
       let sp = http_spec users defs scens O O order in
-      let render_step (o : hparts option) = match o with
-        | None -> "0;-"
-        | Some p ->
-            "200;" ^ hex_of_bytes p.p_method ^ "/" ^ hex_of_bytes p.p_url ^ "/" ^ canon_pairs p.p_headers ^ "/" ^
-            (match p.p_body with None -> "-" | Some b -> hex_of_bytes b) in
+      let parts p =
+        hex_of_bytes p.p_method ^ "/" ^ hex_of_bytes p.p_url ^ "/" ^ canon_pairs p.p_headers ^ "/" ^
+        (match p.p_body with None -> "-" | Some b -> hex_of_bytes b) in
+      (* one sample per executed step: 200 + the request; 0 + the request when a postprocessor
+         rejected the delivered answer; 0 and no request when the templates failed *)
+      let render_step (o : hout) = match o with
+        | HTmplErr -> "0;-"
+        | HPostFail p -> "0;" ^ parts p
+        | HOk p -> "200;" ^ parts p in
       let want_shots = List.map (fun os -> if os = [] then "none" else String.concat "|" (List.map render_step os)) sp in
       let post =
         String.concat "#" (List.map (fun (sname, idx) ->
@@ -163,11 +168,20 @@ let predict (c : string) (obs : string) : string * string * bool =
         else if post_s <> post then "ahttp:shared-definition-altered"
         else "ahttp:rendered:" ^ first_shot_diff 0 want_shots shots in
       (want, verdict ok why, List.length order > 1 && List.exists (fun d -> d.h_headers <> []) defs)
+  | ["sched"; ninst; _; _] ->
+      (* running a pool over a shared built-in schedule ends without a runtime fault *)
+      let why = if obs = "hang" then "sched:engine-hang"
+        else if String.length obs > 4 && String.sub obs 0 4 = "err:" then
+          "sched:" ^ (if String.length obs > 80 then String.sub obs 4 76 else String.sub obs 4 (String.length obs - 4))
+        else "sched:" ^ obs in
+      ("ok", verdict (obs = "ok") why, int_of_string ninst > 1)
   | ["race"; pool; ninst; _; variant] ->
       let ok = (obs = "clean") in
       let why = if ok then "" else
         (let pre p = String.length obs >= String.length p && String.sub obs 0 (String.length p) = p in
-         if pre "race:" || pre "fatal:" then obs else "race-run:" ^ pool ^ ":" ^ variant ^ ":" ^ (if String.length obs > 60 then String.sub obs 0 60 else obs)) in
+         if pre "race:" || pre "fatal:" then obs
+         else if pre "counts:" then "pool-run:" ^ pool ^ ":samples-do-not-match-exchanges"
+         else if pre "enginerr:" then "pool-run:" ^ pool ^ ":" ^ (if String.length obs > 90 then String.sub obs 0 90 else obs) else "race-run:" ^ pool ^ ":" ^ variant ^ ":" ^ (if String.length obs > 60 then String.sub obs 0 60 else obs)) in
       ("clean", verdict ok why, int_of_string ninst > 1)
   | _ -> ("unknown-case", "BAD:unknown-case", false)
 
